@@ -237,7 +237,13 @@ Fixpoint check_value (doc : tsdoc) (v : value) {struct v} : ty -> list cerr :=
                   | VObject _ fs =>
                       let acc :=
                         fold_left (fun (a : ioacc) (ef : inputvaldef) =>
-                          match find_field (iname (iv_name ef)) (fun fv => check_value doc fv (iv_type ef)) fs with
+                          match (fix ff (l : list (ident * value)) : option (list cerr) :=
+                                   match l with
+                                   | [] => None
+                                   | (k, fv) :: r =>
+                                       if str_eqb (iname (iv_name ef)) (iname k)
+                                       then Some (check_value doc fv (iv_type ef)) else ff r
+                                   end) fs with
                           | None =>
                               if ty_is_nonnull (iv_type ef) && (match iv_default ef with None => true | Some _ => false end)
                               then mkIo (io_errs a) false
